@@ -5,13 +5,12 @@
    packageNames / manualImports are Go maps; the model keeps them as association
    lists and makes the order in which Content ranges over them an explicit
    parameter of [import_entries]. *)
-From Coq Require Import List NArith Bool String.
+From Coq Require Import List NArith Bool.
 From PB Require Import Base.PBytes CodeGen.NamesModel CodeGen.UniqueModel CodeGen.MapRangeModel.
 Import ListNotations.
 Open Scope N_scope.
 
 Definition path := list byte.
-Definition bs (s : string) : list byte := list_byte_of_string s.
 
 (* ---------- path.Base ---------- *)
 Definition is_slash (c : byte) : bool := b2n c =? 47.
@@ -27,9 +26,9 @@ Fixpoint take_segment (s : list byte) : list byte :=
   end.
 Definition path_base (p : path) : list byte :=
   match p with
-  | [] => bs "."
+  | [] => [ "." ]%byte
   | _ => match drop_slashes (rev p) with
-         | [] => bs "/"
+         | [] => [ "/" ]%byte
          | r => rev (take_segment r)
          end
   end.
@@ -47,12 +46,51 @@ Fixpoint itoa_fuel (fuel : nat) (n : N) (acc : list byte) : list byte :=
 Definition itoa (n : N) : list byte := itoa_fuel 40 n [].
 
 (* types.Universe.Names() (go1.23): every predeclared identifier is a used package name *)
-Definition predeclared : list name := map bs
-  [ "any"; "append"; "bool"; "byte"; "cap"; "clear"; "close"; "comparable"; "complex";
-    "complex128"; "complex64"; "copy"; "delete"; "error"; "false"; "float32"; "float64";
-    "imag"; "int"; "int16"; "int32"; "int64"; "int8"; "iota"; "len"; "make"; "max"; "min";
-    "new"; "nil"; "panic"; "print"; "println"; "real"; "recover"; "rune"; "string"; "true";
-    "uint"; "uint16"; "uint32"; "uint64"; "uint8"; "uintptr" ]%string.
+Definition predeclared : list name :=
+  [ [ "a"; "n"; "y" ]%byte;
+    [ "a"; "p"; "p"; "e"; "n"; "d" ]%byte;
+    [ "b"; "o"; "o"; "l" ]%byte;
+    [ "b"; "y"; "t"; "e" ]%byte;
+    [ "c"; "a"; "p" ]%byte;
+    [ "c"; "l"; "e"; "a"; "r" ]%byte;
+    [ "c"; "l"; "o"; "s"; "e" ]%byte;
+    [ "c"; "o"; "m"; "p"; "a"; "r"; "a"; "b"; "l"; "e" ]%byte;
+    [ "c"; "o"; "m"; "p"; "l"; "e"; "x" ]%byte;
+    [ "c"; "o"; "m"; "p"; "l"; "e"; "x"; "1"; "2"; "8" ]%byte;
+    [ "c"; "o"; "m"; "p"; "l"; "e"; "x"; "6"; "4" ]%byte;
+    [ "c"; "o"; "p"; "y" ]%byte;
+    [ "d"; "e"; "l"; "e"; "t"; "e" ]%byte;
+    [ "e"; "r"; "r"; "o"; "r" ]%byte;
+    [ "f"; "a"; "l"; "s"; "e" ]%byte;
+    [ "f"; "l"; "o"; "a"; "t"; "3"; "2" ]%byte;
+    [ "f"; "l"; "o"; "a"; "t"; "6"; "4" ]%byte;
+    [ "i"; "m"; "a"; "g" ]%byte;
+    [ "i"; "n"; "t" ]%byte;
+    [ "i"; "n"; "t"; "1"; "6" ]%byte;
+    [ "i"; "n"; "t"; "3"; "2" ]%byte;
+    [ "i"; "n"; "t"; "6"; "4" ]%byte;
+    [ "i"; "n"; "t"; "8" ]%byte;
+    [ "i"; "o"; "t"; "a" ]%byte;
+    [ "l"; "e"; "n" ]%byte;
+    [ "m"; "a"; "k"; "e" ]%byte;
+    [ "m"; "a"; "x" ]%byte;
+    [ "m"; "i"; "n" ]%byte;
+    [ "n"; "e"; "w" ]%byte;
+    [ "n"; "i"; "l" ]%byte;
+    [ "p"; "a"; "n"; "i"; "c" ]%byte;
+    [ "p"; "r"; "i"; "n"; "t" ]%byte;
+    [ "p"; "r"; "i"; "n"; "t"; "l"; "n" ]%byte;
+    [ "r"; "e"; "a"; "l" ]%byte;
+    [ "r"; "e"; "c"; "o"; "v"; "e"; "r" ]%byte;
+    [ "r"; "u"; "n"; "e" ]%byte;
+    [ "s"; "t"; "r"; "i"; "n"; "g" ]%byte;
+    [ "t"; "r"; "u"; "e" ]%byte;
+    [ "u"; "i"; "n"; "t" ]%byte;
+    [ "u"; "i"; "n"; "t"; "1"; "6" ]%byte;
+    [ "u"; "i"; "n"; "t"; "3"; "2" ]%byte;
+    [ "u"; "i"; "n"; "t"; "6"; "4" ]%byte;
+    [ "u"; "i"; "n"; "t"; "8" ]%byte;
+    [ "u"; "i"; "n"; "t"; "p"; "t"; "r" ]%byte ].
 
 Record gfile := mkgfile {
   g_own : path;                     (* goImportPath of the generated file *)
@@ -82,7 +120,7 @@ Definition qualified (g : gfile) (p : path) : gfile :=
        | Some _ => g
        | None =>
          let orig := clean_package_name (path_base p) in
-         let n := pkg_uniq_loop (S (List.length (g_used g))) 1 orig orig (g_used g) in
+         let n := pkg_uniq_loop (S (length (g_used g))) 1 orig orig (g_used g) in
          mkgfile (g_own g) ((p, n) :: g_pkgs g) (n :: g_used g) (g_manual g)
        end.
 (* Import(p) *)
@@ -123,6 +161,6 @@ Definition import_block (g : gfile) : list (name * path) :=
 (* one printed line per entry:  name "path"   (strconv.Quote of a printable ASCII
    path without quotes or backslashes) *)
 Definition import_line (e : name * path) : list byte :=
-  fst e ++ bs " " ++ bs """" ++ snd e ++ bs """".
+  fst e ++ [ " "; """" ]%byte ++ snd e ++ [ """" ]%byte.
 Definition import_lines (own : path) (ops : list gop) : list (list byte) :=
   map import_line (import_block (run_ops own ops)).
